@@ -29,6 +29,8 @@ import json
 
 from vp import registry as R
 
+R.CLOSURES_ENABLED = True  # function-valued non-SymPy attributes that share a qualified name
+
 PROPERTY = "C14"
 LEVEL = "exploration"
 KNOWN_TAG = "astuple-recursion-nested-unevaluated-argument"
